@@ -431,12 +431,19 @@ class VersionConverter(object):
         :param elem_map: lxml path to occurrence maps of named Sections or Properties.
         :param name: lxml element containing the name text of a Section or Property.
         """
-        named_path = "%s:%s" % (tree.getpath(name.getparent().getparent()), name.text)
+        parent_path = tree.getpath(name.getparent().getparent())
+        named_path = "%s:%s" % (parent_path, name.text)
         if named_path not in elem_map:
             elem_map[named_path] = 1
-        else:
+            return
+
+        # The numbered name must not be the name of another sibling either.
+        new_name = name.text
+        while "%s:%s" % (parent_path, new_name) in elem_map:
             elem_map[named_path] += 1
-            name.text += "-" + str(elem_map[named_path])
+            new_name = "%s-%s" % (name.text, elem_map[named_path])
+        name.text = new_name
+        elem_map["%s:%s" % (parent_path, new_name)] = 1
 
     def _check_add_ids(self, tree):
         """
